@@ -2,11 +2,17 @@
 package main
 
 import (
+	"bytes"
 	"encoding/binary"
 	"fmt"
+	"io"
+	"os"
+	"os/exec"
 	"runtime"
+	"strings"
 	"sync"
 	"sync/atomic"
+	"syscall"
 	"unsafe"
 
 	"github.com/acquirecloud/golibs/xbinary"
@@ -241,8 +247,61 @@ func enum(alpha []byte, ln int, first int, buf []byte, f func([]byte)) {
 	}
 }
 
+// supervise runs the whole check in a child process with a cap on its address space: a decoder that allocates by an
+// untrusted length prefix does not "panic", it takes the process down (the Go runtime's out-of-memory is fatal, or the
+// kernel kills it). The supervisor turns the death of the child into a violation instead of a vanished check.
+func supervise() {
+	exe, _ := os.Executable()
+	cmd := exec.Command(exe, os.Args[1:]...)
+	cmd.Env = append(os.Environ(), "C16_CHILD=1")
+	cmd.Stdout = os.Stdout
+	var errb bytes.Buffer
+	cmd.Stderr = io.MultiWriter(os.Stderr, &tailWriter{b: &errb, max: 1 << 16})
+	err := cmd.Run()
+	code := 0
+	if err != nil {
+		code = 2
+		if ee, ok := err.(*exec.ExitError); ok {
+			code = ee.ExitCode()
+		}
+	}
+	if code == 0 || code == 1 {
+		os.Exit(code)
+	}
+	tail := errb.String()
+	if !strings.Contains(tail, "out of memory") && !strings.Contains(tail, "cannot allocate") && code != -1 && code != 137 {
+		fmt.Fprintf(os.Stderr, "INFRASTRUCTURE ERROR: C16 child exited with status %d\n", code)
+		os.Exit(2)
+	}
+	if len(tail) > 3000 {
+		tail = tail[:3000]
+	}
+	run.Violation("decoder-exhausts-memory", fmt.Sprintf("the process running the decoders died (status %d) because a decoder tried to allocate without bound (address space capped at 6 GiB):\n%s", code, tail), nil)
+	run.Finish(ev.Coverage{"exhaustive": false, "rule": "the child process that enumerates the inputs died; see the violation"})
+}
+
+type tailWriter struct {
+	b   *bytes.Buffer
+	max int
+}
+
+func (w *tailWriter) Write(p []byte) (int, error) {
+	if w.b.Len() < w.max {
+		w.b.Write(p)
+	}
+	return len(p), nil
+}
+
 func main() {
 	run = ev.Parse("C16", "model_checking")
+	if os.Getenv("C16_CHILD") == "" && run.Replay == "" {
+		supervise()
+		return
+	}
+	if os.Getenv("C16_CHILD") != "" {
+		lim := syscall.Rlimit{Cur: 6 << 30, Max: 6 << 30}
+		syscall.Setrlimit(syscall.RLIMIT_AS, &lim)
+	}
 	var samples ev.Samples
 	full := make([]byte, 256)
 	for i := range full {
